@@ -5,7 +5,7 @@
 # seedlab.sh try <seed-dir> <Cxx> [tier] : applies <seed-dir>/patch.diff (or patch-current-tree.diff) to the lab repo, runs the lab's
 #                              ./check <Cxx> quick, reverts; prints one summary line; full output in /tmp/seedlab/logs/<name>.log
 # seedlab.sh clean           : removes the lab and its worktree
-L=/tmp/seedlab
+L=${LAB:-/tmp/seedlab}
 case "$1" in
   sync)
     mkdir -p $L/logs
